@@ -9,9 +9,10 @@ scaling, `isort_qdata`, the merge of `ibinary_blockwise` / `iadd_prefactor_other
 A block is a dense tensor (`Blk α = Dense α`: shape + row-major values). Operations that can reject their
 arguments return `Except Err _`, with `Err` = the class of the Python exception.
 
-Kernel variants: a few *cached-claim* details (`_qdata_sorted` of shallow copies / of operands) differ between
-the compiled kernels of `_npc_helper.pyx` and the pure-Python fallbacks; functions concerned take `cy : Bool`
-(true = compiled). Values, legs, labels, total charge and the set of stored blocks never depend on it.
+Kernel variants: a few *cached-claim* details (`_qdata_sorted` of operands / of `self` for a zero prefactor in
+`iadd_prefactor_other`) differ between the compiled kernels of `_npc_helper.pyx` and the pure-Python fallbacks;
+the function concerned takes `cy : Bool` (true = compiled). Values, legs, labels, total charge and the set of
+stored blocks never depend on it.
 -/
 namespace TenpyModel.Core
 
